@@ -196,6 +196,9 @@ class Gen:
         forms = ["extra = 'e1'", "a > 3", "x != ''", "true()", "name != 'b' and my_col = \"q\""]
         if r:
             forms += [f"x={r}", f"selected({r}, name)", f"a = {r} or extra < 5", f"x = {r} and a = {self.ref()}"]
+            if rng.random() < 0.3:
+                # a reference inside and outside the predicate of a secondary-instance path
+                forms += [f"x = instance('pd')/root/item[k = {r}]/v", f"a = {r} and x = instance('l1')/root/item[name = {self.ref()}][1]/label"]
             if rng.random() < 0.25:
                 forms.append("x = ${last-saved#%s}" % r[2:-1])
         if rng.random() < 0.12:
@@ -256,6 +259,9 @@ class Gen:
             row["appearance"] = rng.choice(["search('fruits')", "minimal search('fruits', 'contains', 'name', ${%s})" % rng.choice(self.top_questions) if self.top_questions else "search('x')", "search('a.b')", "quick search('pd')"])
             if rng.random() < 0.25:
                 row["choice_filter"] = self.choice_filter()
+            if rng.random() < 0.15:
+                # a select that has only a hint: its in-line items still carry the choice labels (51586cd)
+                row["hint"] = row.pop("label")
         elif v == "file":
             cmd = rng.choice(["select_one_from_file", "select_multiple_from_file", "select one from file",
                               "select multiple from file", "select_one", "select_multiple"])
